@@ -116,7 +116,7 @@ def oracle_case(case: dict) -> Failure | None:  # noqa: C901
         # only demands that the condition was true on some earlier-or-same tick (or the node was forced).
         resettable = {n["id"] for n in nodes0
                       if any(a["cls"] in ("AlarmNode", "MacroNode") for a in ancestors(n["id"]))}
-        has_calls = any(n["cls"] == "CallMacroNode" for n in nodes0)
+        has_calls = False   # (a Call macro only runs the macro body, whose nodes are `resettable` already)
         # the body of w: the instructions under it whose nearest enclosing Watch/Alarm is w (a nested Watch/Alarm is
         # declared by w's body but runs its own body as an interrupt of its own)
         def nearest_cond(nid):
@@ -124,7 +124,7 @@ def oracle_case(case: dict) -> Failure | None:  # noqa: C901
         body = {w["id"]: [n for n in nodes0 if nearest_cond(n["id"]) == w["id"]] for w in conds}
         blocks_above = {w["id"]: [a for a in ancestors(w["id"]) if a["cls"] == "BlockNode"] for w in conds}
         st = {w["id"]: dict(starts=0, true_since=False, forced_seen=False, cancelled_at=None, prev_states=0,
-                            completions=0, registered_at=None) for w in conds}
+                            completions=0, first_reg=None, rearm_ticks=[]) for w in conds}
         block_ended_at: dict[str, int] = {}
         prev = {n["id"]: n for n in nodes0}
         prev_mark = ""
@@ -251,6 +251,29 @@ def oracle_case(case: dict) -> Failure | None:  # noqa: C901
                             return Failure("alarm-not-rearmed-after-run", case,
                                            f"tick {t}: Alarm: {w['arg']} (line {w['line']}) completed run {n['run_count']} "
                                            f"but activated={n['activated']} registered={n['interrupt_registered']}")
+                # -- (d0) the Watch/Alarm itself is not activated and not reported Started after a block around it ended
+                if (n["interrupt_registered"] and not pn["interrupt_registered"]) or \
+                        (n["run_count"] or 0) > (pn["run_count"] or 0):
+                    s["rearm_ticks"].append(t)    # ticks in which a (new) generator was registered for the node
+                if fixed and (started_now or (n["activated"] and not pn["activated"])):
+                    for b in blocks_above[wid]:
+                        te = block_ended_at.get(b["id"])
+                        if te is None or te >= t or b["id"] in resettable or not prev[b["id"]]["ended"]:
+                            continue
+                        what = "was reported Started" if started_now else "was activated"
+                        # Known defect (findings.d/C04.json): interrupt handlers are served from a per-tick snapshot, so a
+                        # Watch/Alarm that still runs in the tick of the End block — at its first dispatch, or an Alarm at
+                        # its re-arm — registers itself again after `_abort_block_interrupts`; likewise a Watch that the main
+                        # flow had already entered registers one tick after the block ended.
+                        # A generator registered at tick r makes its first dispatch at r+1 (registered by the main flow) or
+                        # r+2 (registered by an interrupt handler, e.g. the Alarm's own re-arm): window r in [te-2, te+1].
+                        race = any(te - 2 <= r <= te + 1 for r in s["rearm_ticks"])
+                        key = "registered-again-around-block-end" if race else "watch-or-alarm-active-after-block-ended"
+                        STATS[key] += 1
+                        return Failure(key, case,
+                                       f"tick {t}: {w['name']}: {w['arg']} (line {w['line']}) {what} although block {b['arg']} "
+                                       f"around it ended at tick {te} (generators registered for it at ticks "
+                                       f"{s['rearm_ticks']})")
                 # -- (c') / (d): no instruction of the body starts after cancel / after the block ended
                 for d in body[wid]:
                     dn, dp = now[d["id"]], prev[d["id"]]
